@@ -6,7 +6,8 @@ function, executes its AST, forks on symbolic conditions (collecting a path cond
 of (path_condition, result) pairs. Supported (exactly what sanitize_table_prefix-like code needs):
   re.sub(<single character class>, <1-char replacement>, s)   -> per-character ite (class read with re._parser)
   s[0], s[i] (concrete i), truthiness of s (len > 0), `a or b`, `a and b`, `not a`
-  c.isdigit()/isalpha()/isalnum() on one character            -> uninterpreted predicates pinned on ASCII
+  c.isdigit()/isalpha()/isalnum() on one character or a slice -> uninterpreted predicates pinned on ASCII
+  s[a:b] (concrete bounds), startswith/endswith, replace(c1, c2), `c in s`, x if c else y, +=
   f-strings / + concatenation of symbolic and constant strings
   hashlib.sha256(s.encode()).hexdigest()[:k]                  -> k fresh lowercase-hex characters per distinct input
   if / return / assignment
@@ -209,6 +210,8 @@ class _Exec:
                 if not isinstance(t, ast.Name):
                     raise Unsupported("assignment target")
                 self.env[t.id] = v
+        elif isinstance(s, ast.AugAssign) and isinstance(s.op, ast.Add) and isinstance(s.target, ast.Name):
+            self.env[s.target.id] = self.expr(ast.BinOp(left=ast.Name(s.target.id, ast.Load()), op=ast.Add(), right=s.value))
         elif isinstance(s, ast.AnnAssign):
             if s.value is not None:
                 self.env[s.target.id] = self.expr(s.value)
@@ -245,12 +248,16 @@ class _Exec:
                     if part.format_spec is not None or part.conversion != -1:
                         raise Unsupported("format spec")
                     v = self.expr(part.value)
+                    if isinstance(v, _Char):
+                        v = SymStr([v.c])
                     out = out + (v if isinstance(v, (SymStr, str)) else str(v))
                 else:
                     raise Unsupported("fstring part")
             return out
         if isinstance(e, ast.BinOp) and isinstance(e.op, ast.Add):
             a, b = self.expr(e.left), self.expr(e.right)
+            a = SymStr([a.c]) if isinstance(a, _Char) else a
+            b = SymStr([b.c]) if isinstance(b, _Char) else b
             if isinstance(a, (SymStr, str)) and isinstance(b, (SymStr, str)):
                 return SymStr.of(a) + b if isinstance(a, SymStr) or isinstance(b, SymStr) else a + b
             raise Unsupported("+ on non-strings")
@@ -267,6 +274,8 @@ class _Exec:
                 if not self.truth(v):
                     return v
             return self.expr(vals[-1])
+        if isinstance(e, ast.IfExp):
+            return self.expr(e.body) if self.truth(self.expr(e.test)) else self.expr(e.orelse)
         if isinstance(e, ast.UnaryOp) and isinstance(e.op, ast.Not):
             return not self.truth(self.expr(e.operand))
         if isinstance(e, ast.Subscript):
@@ -313,6 +322,16 @@ class _Exec:
             return fn(*args)
         if isinstance(e, ast.Compare) and len(e.ops) == 1:
             a, b = self.expr(e.left), self.expr(e.comparators[0])
+            if isinstance(a, _Char):
+                a = SymStr([a.c])
+            if isinstance(b, _Char):
+                b = SymStr([b.c])
+            if isinstance(e.ops[0], (ast.In, ast.NotIn)) and (isinstance(a, SymStr) or isinstance(b, SymStr)):
+                A, B = SymStr.of(a), SymStr.of(b)
+                if len(A) != 1:
+                    raise Unsupported("substring test with a needle longer than one character")
+                hit = z3.Or(*[A.chars[0] == c for c in B.chars]) if len(B) else z3.BoolVal(False)
+                return hit if isinstance(e.ops[0], ast.In) else z3.Not(hit)
             if isinstance(a, SymStr) or isinstance(b, SymStr):
                 A, B = SymStr.of(a), SymStr.of(b)
                 eq = z3.BoolVal(False) if len(A) != len(B) else z3.And(*[x == y for x, y in zip(A.chars, B.chars)]) if len(A) else z3.BoolVal(True)
@@ -338,9 +357,25 @@ class _Exec:
             raise Unsupported(f"char method {name}")
         if isinstance(base, SymStr):
             if name == "encode":
+                if args and args[0] not in ("utf-8", "utf8"):
+                    raise Unsupported("encode with another codec")
                 return _Bytes(base)
-            if name in ("isdigit", "isalpha") and len(base) == 1:
-                return self.method(_Char(base.chars[0]), name, args)
+            if name in ("isdigit", "isalpha", "isalnum"):
+                # Python: False for the empty string, otherwise "every character is ..."
+                if len(base) == 0:
+                    return False
+                parts = [self.method(_Char(c), name, args) for c in base.chars]
+                return parts[0] if len(parts) == 1 else z3.And(*parts)
+            if name in ("startswith", "endswith") and len(args) == 1 and isinstance(args[0], (str, SymStr, _Char)):
+                needle = SymStr([args[0].c]) if isinstance(args[0], _Char) else SymStr.of(args[0])
+                if len(needle) > len(base):
+                    return False
+                if len(needle) == 0:
+                    return True
+                seg = base.chars[:len(needle)] if name == "startswith" else base.chars[len(base) - len(needle):]
+                return z3.And(*[x == y for x, y in zip(seg, needle.chars)])
+            if name == "replace" and len(args) == 2 and all(isinstance(a, str) and len(a) == 1 for a in args):
+                return SymStr([z3.If(c == ord(args[0]), z3.IntVal(ord(args[1])), c) for c in base.chars])
             raise Unsupported(f"str method {name}")
         if isinstance(base, _Hash):
             if name == "hexdigest":
